@@ -1,113 +1,335 @@
+// C03 harness: histories of spec updates (servers added / removed / disabled / re-enabled / duplicated, subsets
+// changed), health reports (scripted probes through the real health-check goroutines, direct UpdateStatus), and
+// requests (MatchAttributes ... Pop, possibly with Syncs in between) against the real pkg/clusters code, compared
+// step by step with the Lean model KG.Model.Endpoints and judged by KG.Spec.Endpoints.judgeTrace.
 package main
 
 import (
-	"flag"
+	"encoding/json"
 	"fmt"
-	"io"
-	"runtime"
+	"os"
+	"path/filepath"
+	"sort"
 	"strings"
-	"sync"
 	"time"
 
-	metav1 "k8s.io/apimachinery/pkg/apis/meta/v1"
-	"k8s.io/klog"
-
-	proxyv1alpha1 "github.com/kubewharf/kubegateway/pkg/apis/proxy/v1alpha1"
 	"github.com/kubewharf/kubegateway/pkg/clusters"
+
+	lib "verifharness/c03lib"
+	"verifharness/rig"
 )
 
-func workers() (w, t int) {
-	buf := make([]runtime.StackRecord, 256)
-	n, ok := runtime.GoroutineProfile(buf)
-	for !ok {
-		buf = make([]runtime.StackRecord, 2*len(buf))
-		n, ok = runtime.GoroutineProfile(buf)
+type Case struct {
+	Ops []lib.Op `json:"ops"`
+}
+
+type modelReply struct {
+	Steps      []lib.Step `json:"steps"`
+	ModelJudge bool       `json:"model_judge"`
+	ImplBad    *struct {
+		At   int    `json:"at"`
+		What string `json:"what"`
+	} `json:"impl_bad"`
+}
+
+type stats struct {
+	pops, popOK, popErr, filtered, stalePops, fired, syncs int
+}
+
+func readable(cs Case) string {
+	var b strings.Builder
+	for i, op := range cs.Ops {
+		if i > 0 {
+			b.WriteString(" ; ")
+		}
+		switch op.Op {
+		case "sync":
+			var s []string
+			for _, x := range op.Servers {
+				n := rig.UnHex(x.Ep)
+				if x.Dis {
+					n += "(disabled)"
+				}
+				s = append(s, n)
+			}
+			var p []string
+			for _, x := range op.Policies {
+				p = append(p, fmt.Sprint(unhexAll(x)))
+			}
+			var u []string
+			for _, x := range op.Up {
+				if !x.H {
+					u = append(u, rig.UnHex(x.N))
+				}
+			}
+			fmt.Fprintf(&b, "sync servers=%v subsets=%v down=%v", s, p, u)
+		case "status":
+			fmt.Fprintf(&b, "UpdateStatus(%s,%v)", rig.UnHex(op.N), op.H)
+		case "trigger", "ensure":
+			fmt.Fprintf(&b, "%s(%s)", op.Op, rig.UnHex(op.N))
+		case "match":
+			fmt.Fprintf(&b, "match policy %d", op.Policy)
+		case "pop":
+			fmt.Fprintf(&b, "pop request %d", op.Picker)
+		}
 	}
-	for _, r := range buf[:n] {
-		frames := runtime.CallersFrames(r.Stack())
-		for {
-			f, more := frames.Next()
-			if strings.Contains(f.Function, "startGatewayHealthCheck.func2") {
-				w++
+	return b.String()
+}
+
+func unhexAll(l []string) []string {
+	r := make([]string, len(l))
+	for i, s := range l {
+		r[i] = rig.UnHex(s)
+	}
+	return r
+}
+
+// runCase plays one history on the real code and on the model. It returns false when the case fails (judge or diff).
+func runCase(c *rig.Ctx, cs Case, record bool, st *stats) bool {
+	fail := func(kind, class, what string, impl, model interface{}) bool {
+		if record {
+			c.Fail(rig.Failure{Kind: kind, Class: class, What: what + " | history: " + readable(cs), Case: cs, Impl: impl, Model: model})
+		}
+		return false
+	}
+	// 1. planning run of the model: how many probes each endpoint object will have received after each op
+	var plan modelReply
+	planOps := make([]lib.Op, len(cs.Ops))
+	copy(planOps, cs.Ops)
+	for i := range planOps {
+		planOps[i].Order = nil
+	}
+	if err := c.Model("C03.run", map[string]interface{}{"ops": planOps}, &plan); err != nil {
+		return fail("diff", "c03.model-error", "model error "+err.Error(), nil, nil)
+	}
+	if len(plan.Steps) != len(cs.Ops) {
+		return fail("diff", "c03.model-error", "model answered a different number of steps", nil, nil)
+	}
+	// 2. the real code
+	if !lib.WaitNoHealthGoroutines(20 * time.Second) {
+		return fail("diff", "c03.leftover-goroutines", "health-check workers of a stopped cluster are still alive", nil, nil)
+	}
+	w := lib.NewWorld()
+	defer w.Stop()
+	ops := make([]lib.Op, len(cs.Ops))
+	copy(ops, cs.Ops)
+	impl := make([]lib.Step, 0, len(ops))
+	unsettled := ""
+	var judgeFail *rig.Failure
+	for i := range ops {
+		op := &ops[i]
+		var out *lib.OutJ
+		checkWorkers := -1
+		msg, panicked := rig.Recover(func() {
+			switch op.Op {
+			case "sync":
+				w.SetUp(op.Up)
+				if err := w.Sync(op.Servers, op.Policies); err != nil {
+					out = &lib.OutJ{Err: "other:" + err.Error()}
+				}
+				checkWorkers = w.EnabledInSpec()
+				st.syncs++
+			case "status":
+				if e, ok := w.Load(op.N); ok {
+					if op.H {
+						e.UpdateStatus(true, "", "")
+					} else {
+						e.UpdateStatus(false, "Failure", "scripted")
+					}
+				}
+			case "trigger":
+				w.SetUp(op.Up)
+				if e, ok := w.Load(op.N); ok {
+					e.TriggerHealthCheck()
+				}
+			case "ensure":
+				w.SetUp(op.Up)
+				if e, ok := w.Load(op.N); ok {
+					clusters.EnsureGatewayHealthCheck(e, time.Hour, e.Context())
+				}
+				checkWorkers = w.EnabledInSpec()
+			case "match":
+				if w.CI == nil {
+					w.Pickers = append(w.Pickers, nil)
+					out = &lib.OutJ{Err: "norule"}
+					break
+				}
+				var us []string
+				out, us = w.Match(op.Policy)
+				op.Order = us
+			case "pop":
+				out = w.Pop(op.Picker)
+				st.pops++
+				if out.Err == "" {
+					st.popOK++
+				} else if out.Err == "noready" {
+					st.popErr++
+				}
 			}
-			if strings.Contains(f.Function, "startGatewayHealthCheck.func1") {
-				t++
+		})
+		if panicked {
+			return fail("judge", "c03.panic", fmt.Sprintf("op %d (%s) panicked: %s", i, op.Op, msg), nil, nil)
+		}
+		// quiescence: the probes the model expects have happened, nothing else has
+		want := map[lib.Ident]int{}
+		for _, e := range plan.Steps[i].Eps {
+			want[lib.Ident{N: e.N, Gen: e.Gen}] = e.Probes
+		}
+		if w.CI == nil {
+			checkWorkers = -1
+		}
+		unsettled = w.Quiesce(want, checkWorkers)
+		fired := w.DrainFired()
+		st.fired += len(fired)
+		eps, lb, serr := w.Snapshot()
+		impl = append(impl, lib.Step{Out: out, Fired: fired, Eps: eps, Lb: lb})
+		if v := w.DrainViol(); len(v) > 0 && judgeFail == nil {
+			judgeFail = &rig.Failure{Kind: "judge", Class: "c03.probe-disabled", What: fmt.Sprintf("op %d (%s): %s", i, op.Op, v[0]), Impl: impl}
+		}
+		if serr != nil {
+			return fail("diff", "c03.snapshot", fmt.Sprintf("op %d: %v", i, serr), impl, nil)
+		}
+		if unsettled != "" {
+			if judgeFail == nil && strings.HasPrefix(unsettled, "workers:") {
+				judgeFail = &rig.Failure{Kind: "judge", Class: "c03.probing-set", Impl: impl,
+					What: fmt.Sprintf("after op %d (%s) with %d enabled servers in the spec: %s", i, op.Op, checkWorkers, unsettled)}
 			}
-			if !more {
-				break
+			ops = ops[:i+1]
+			break
+		}
+		if out != nil && strings.HasPrefix(out.Err, "status:") {
+			return fail("judge", "c03.status-503", fmt.Sprintf("op %d: a Pop error is answered with %s, not 503", i, out.Err), impl, nil)
+		}
+		if out != nil && strings.HasPrefix(out.Err, "other:") {
+			return fail("judge", "c03.unexpected-error", fmt.Sprintf("op %d (%s): %s", i, op.Op, out.Err), impl, nil)
+		}
+	}
+	// 3. the model on the same history (with the observed iteration orders), and the judge on the implementation's trace
+	var m modelReply
+	merr := c.Model("C03.run", map[string]interface{}{"ops": ops, "impl": impl}, &m)
+	if merr != nil && judgeFail == nil {
+		return fail("diff", "c03.model-error", "model error "+merr.Error(), impl, nil)
+	}
+	if merr == nil && m.ImplBad != nil && judgeFail == nil {
+		at := m.ImplBad.At
+		judgeFail = &rig.Failure{Kind: "judge", Class: "c03." + m.ImplBad.What, Impl: impl, Model: m.Steps,
+			What: fmt.Sprintf("op %d (%s) answered %s with fired probes [%s]: the property's judge rejects it (%s)", at, ops[at].Op, lib.CanonOut(impl[at].Out), lib.CanonFired(impl[at].Fired), m.ImplBad.What)}
+	}
+	if judgeFail != nil {
+		if record {
+			judgeFail.Case = cs
+			judgeFail.What += " | history: " + readable(cs)
+			c.Fail(*judgeFail)
+		}
+		return false
+	}
+	if unsettled != "" {
+		return fail("diff", "c03.probe-count", fmt.Sprintf("after op %d (%s): %s", len(ops)-1, ops[len(ops)-1].Op, unsettled), impl, plan.Steps)
+	}
+	if !m.ModelJudge {
+		return fail("diff", "c03.model-judge", "the model's own trace is rejected by the judge (a theorem of KG.Props.C03 says it cannot be)", impl, m.Steps)
+	}
+	for i := range ops {
+		ms, is := m.Steps[i], impl[i]
+		mo, io := lib.CanonOut(ms.Out), lib.CanonOut(is.Out)
+		if ops[i].Op != "match" && ops[i].Op != "pop" {
+			mo, io = "-", "-"
+		}
+		if mo != io {
+			return fail("diff", "c03.out", fmt.Sprintf("op %d (%s): model %s, code %s", i, ops[i].Op, mo, io), impl, m.Steps)
+		}
+		if a, b := lib.CanonFired(ms.Fired), lib.CanonFired(is.Fired); a != b {
+			return fail("diff", "c03.fired", fmt.Sprintf("op %d (%s): probes fired: model [%s], code [%s]", i, ops[i].Op, a, b), impl, m.Steps)
+		}
+		if a, b := lib.CanonEps(ms.Eps), lib.CanonEps(is.Eps); a != b {
+			return fail("diff", "c03.state", fmt.Sprintf("op %d (%s): endpoints: model [%s], code [%s]", i, ops[i].Op, a, b), impl, m.Steps)
+		}
+		if a, b := lib.CanonLb(ms.Lb), lib.CanonLb(is.Lb); a != b {
+			return fail("diff", "c03.cursors", fmt.Sprintf("op %d (%s): load-balancer cursors: model [%s], code [%s]", i, ops[i].Op, a, b), impl, m.Steps)
+		}
+	}
+	// statistics for the non-triviality rule: a pick whose upstream list contained something that had to be filtered out
+	for i := range ops {
+		if ops[i].Op != "pop" || impl[i].Out == nil || impl[i].Out.Err == "nopicker" {
+			continue
+		}
+		if ops[i].Picker < len(w.Pickers) && w.Pickers[ops[i].Picker] != nil {
+			ready := map[string]bool{}
+			for _, e := range impl[i].Eps {
+				if !e.Dis && e.Healthy {
+					ready[rig.UnHex(e.N)] = true
+				}
+			}
+			for _, u := range clusters.VerifPickerUpstreams(w.Pickers[ops[i].Picker]) {
+				if !ready[u] {
+					st.filtered++
+					break
+				}
 			}
 		}
 	}
-	return
+	return true
+}
+
+func shrink(c *rig.Ctx, cs Case) Case {
+	var st stats
+	cs.Ops = rig.ShrinkList(cs.Ops, func(l []lib.Op) bool { return !runCase(c, Case{Ops: l}, false, &st) })
+	return cs
 }
 
 func main() {
-	fs := flag.NewFlagSet("klog", flag.ContinueOnError)
-	klog.InitFlags(fs)
-	fs.Set("logtostderr", "false")
-	klog.SetOutput(io.Discard)
-	var mu sync.Mutex
-	probes := map[*clusters.EndpointInfo]int{}
-	hc := func(e *clusters.EndpointInfo) bool {
-		mu.Lock()
-		probes[e]++
-		mu.Unlock()
-		e.UpdateStatus(true, "", "")
-		return false
-	}
-	f, tr := false, true
-	_ = f
-	mk := func(servers ...proxyv1alpha1.UpstreamClusterServer) *proxyv1alpha1.UpstreamCluster {
-		return &proxyv1alpha1.UpstreamCluster{ObjectMeta: metav1.ObjectMeta{Name: "c"}, Spec: proxyv1alpha1.UpstreamClusterSpec{Servers: servers,
-			DispatchPolicies: []proxyv1alpha1.DispatchPolicy{{Rules: []proxyv1alpha1.DispatchPolicyRule{{Verbs: []string{"*"}, APIGroups: []string{"*"}, Resources: []string{"*"}}}}}}}
-	}
-	t0 := time.Now()
-	ci, err := clusters.VerifCreateClusterInfo(mk(), hc, time.Hour)
-	fmt.Println("create", err, time.Since(t0))
-	a := proxyv1alpha1.UpstreamClusterServer{Endpoint: "http://127.0.0.1:1001"}
-	b := proxyv1alpha1.UpstreamClusterServer{Endpoint: "http://127.0.0.1:1002"}
-	bd := proxyv1alpha1.UpstreamClusterServer{Endpoint: "http://127.0.0.1:1002", Disabled: &tr}
-	t0 = time.Now()
-	fmt.Println(ci.Sync(mk(a, bd)), time.Since(t0))
-	time.Sleep(50 * time.Millisecond)
-	show := func(tag string) {
-		w, t := workers()
-		fmt.Println(tag, "workers", w, "tickers", t)
-		ci.Endpoints.Range(func(name string, e *clusters.EndpointInfo) bool {
-			mu.Lock()
-			fmt.Printf("   %s %p %+v probes=%d\n", name, e, clusters.VerifEndpointStatus(e), probes[e])
-			mu.Unlock()
-			return true
-		})
-		fmt.Println("   lb", clusters.VerifLoadbalancer(ci))
-	}
-	show("after sync a, b(dis)")
-	eb, _ := ci.Endpoints.Load(b.Endpoint)
-	eb.TriggerHealthCheck()
-	time.Sleep(50 * time.Millisecond)
-	show("after trigger b(dis)")
-	ci.Sync(mk(a, b))
-	time.Sleep(50 * time.Millisecond)
-	show("after enable b")
-	for i := 0; i < 5; i++ {
-		p := clusters.VerifNewPicker(ci, []string{a.Endpoint, b.Endpoint})
-		e, err := p.Pop()
-		fmt.Printf("pop %p %v\n", e, err)
-	}
-	p := clusters.VerifNewPicker(ci, ci.AllEndpoints())
-	fmt.Println(clusters.VerifPickerUpstreams(p))
-	show("after pops")
-	ci.Sync(mk(a, bd))
-	time.Sleep(50 * time.Millisecond)
-	show("after disable b")
-	t0 = time.Now()
-	for i := 0; i < 1000; i++ {
-		workers()
-	}
-	fmt.Println("profile cost", time.Since(t0)/1000)
-	ci.Stop()
-	time.Sleep(50 * time.Millisecond)
-	show("after stop")
-	_, err = ci.MatchAttributes(nil)
-	fmt.Println(err)
+	lib.SilenceKlog()
+	rig.Main("C03", func(c *rig.Ctx) {
+		c.SetRule("a history of 6-40 ops on one real ClusterInfo over a universe of 2-6 endpoints: Sync (servers added/removed/disabled/re-enabled/duplicated/reordered/unchanged, 1-3 policies with subsets incl. stale and duplicate names), direct UpdateStatus, TriggerHealthCheck and EnsureGatewayHealthCheck under a scripted health table (probes run through the real health-check goroutines), MatchAttributes and Pop (possibly separated by Syncs); distinct = distinct canonical op list; non-trivial = at least one Pop whose upstream list contained an absent, disabled or unhealthy endpoint, or answered no-ready")
+		if c.Replay != "" {
+			var cs Case
+			if err := c.LoadReplay(&cs); err != nil {
+				fmt.Fprintln(os.Stderr, err)
+				os.Exit(2)
+			}
+			var st stats
+			c.Case(rig.Canon(cs), true, "replay", func() interface{} { return readable(cs) })
+			c.Trace()
+			runCase(c, cs, true, &st)
+			return
+		}
+		files, _ := filepath.Glob(filepath.Join(os.Getenv("VERIF_DIR"), "harness", "corpus", "C03", "*.json"))
+		sort.Strings(files)
+		for _, f := range files {
+			b, _ := os.ReadFile(f)
+			var env struct{ Case *Case }
+			if json.Unmarshal(b, &env) != nil || env.Case == nil {
+				continue
+			}
+			var st stats
+			c.Case(rig.Canon(*env.Case), true, "corpus", nil)
+			c.Trace()
+			runCase(c, *env.Case, true, &st)
+		}
+		n := c.Budget(400, 20000)
+		var total stats
+		for i := 0; i < n && c.NFailures() < 3; i++ {
+			cs := genCase(c)
+			var st stats
+			ok := runCase(c, cs, false, &st)
+			nontrivial := st.filtered > 0 || st.popErr > 0
+			c.Case(rig.Canon(cs), nontrivial, bucketOf(cs, st), func() interface{} { return readable(cs) })
+			c.Trace()
+			total.pops += st.pops
+			total.popOK += st.popOK
+			total.popErr += st.popErr
+			total.filtered += st.filtered
+			total.fired += st.fired
+			total.syncs += st.syncs
+			if !ok {
+				runCase(c, shrink(c, cs), true, &st)
+			}
+		}
+		c.SetExtra("pops", total.pops)
+		c.SetExtra("pops_ok", total.popOK)
+		c.SetExtra("pops_no_ready", total.popErr)
+		c.SetExtra("pops_with_filtered_upstreams", total.filtered)
+		c.SetExtra("probes_fired", total.fired)
+		c.SetExtra("syncs", total.syncs)
+	})
 }
